@@ -4,6 +4,7 @@ from ..kengine import H
 ID = "C11"
 MODULE = "c11"
 ENGINE = "KM"
+TECHNIQUE = "control frames / send / non-blocking header logic: Kani/CBMC bounded model checking of the compiled code over a scripted connection; message assembly: symbolic execution of the MIR of recv / recv_nonblocking / Drop on a symbolic client script -> z3 (bit-vectors), control sequences enumerated by the solver, compared with an RFC 6455 receiver; counterexamples replayed natively on a loopback socket"
 
 NET_STUBS = [
     "kani::stub(<std::net::TcpStream as std::io::Read>::read, crate::net::stub_read)",
